@@ -365,9 +365,13 @@ def execute(ctx, plan):
         if phase == "will_stop" and n == "dev" and not in_request[0]:
             ctx.probe("stop_by_own_device")
 
+    games = [0, 0]      # started, ended
+    balls_this_game = [0]
+
     def on_post(name, ev_type, callback, kwargs):
         if name == "game_started":
             games[0] += 1
+            balls_this_game[0] = 0
             ctx.probe("game_started")
         elif name == "game_ended":
             games[1] += 1
@@ -376,6 +380,7 @@ def execute(ctx, plan):
             m.playfield.balls = 0
             m.playfield.available_balls = 0
         elif name == "ball_started":
+            balls_this_game[0] += 1
             ctx.probe("ball_started")
         mt = LIFE.match(name)
         if mt:
@@ -394,7 +399,6 @@ def execute(ctx, plan):
     m.ball_controller.num_balls_known = 3
     attract = m.modes["attract"]
     game_mode = m.modes["game"]
-    games = [0, 0]      # started, ended
 
     def _drained(balls=0, **kwargs):
         pf.balls -= balls
@@ -419,7 +423,9 @@ def execute(ctx, plan):
                     ctx.probe("ball_end_with_game_mode_active")
                 ev.post_relay("ball_drain", callback=_drained, balls=1)
         elif kind == "g_end":
-            if g is not None:
+            # only once the first ball of the game has started: Game.end_game() while the game is still starting (no
+            # player yet) wedges the game for good - a game lifecycle matter (C06), reported there, not judged here
+            if g is not None and g.player is not None and balls_this_game[0] and not g.ending:
                 ctx.probe("game_end_request")
                 g.end_game()
 
@@ -862,9 +868,10 @@ def execute(ctx, plan):
         checkpoint(final=True)
     if not abort[0] and not pre_game_environment():
         # end the game and wait for attract; bound: the game's ending queue events are only held by the hooks
-        if m.game is not None:
-            m.game.end_game()
-        for _ in range(6 + sum(len(h["script"]) for h in plan["hooks"])):
+        for i in range(8 + sum(len(h["script"]) for h in plan["hooks"])):
+            g = m.game
+            if g is not None and g.player is not None and balls_this_game[0] and not g.ending:
+                g.end_game()
             sim.run_quiet(HOLD_MAX + 0.1)
             if pre_game_environment() and quiet_bus() and not holds:
                 break
